@@ -556,3 +556,30 @@ func copyV1Txns(txns []types.Transaction) []types.Transaction {
 	}
 	return out
 }
+
+// AddDynamic registers a block that was not part of the case (for example one
+// assembled by the repository's miner) as a tree node, validating it on its
+// parent's reference ledger.
+func (t *Tree) AddDynamic(b types.Block) *TNode {
+	if n, ok := t.ByID[b.ID()]; ok {
+		return n
+	}
+	parent := t.ByID[b.ParentID]
+	node := &TNode{Idx: len(t.Nodes) + 1000000, Block: b, ID: b.ID(), Corrupt: ""}
+	if parent == nil {
+		node.Err = fmt.Errorf("unknown parent")
+		node.OwnInvalid = true
+		t.ByID[node.ID] = node
+		return node
+	}
+	node.Parent, node.Height = parent, parent.Height+1
+	if parent.Ledger == nil {
+		node.Err = fmt.Errorf("ancestor invalid")
+	} else if l, err := parent.Ledger.Apply(b, nil); err != nil {
+		node.Err, node.OwnInvalid = err, true
+	} else {
+		node.Ledger, node.Hdr = l, l.State
+	}
+	t.ByID[node.ID] = node
+	return node
+}
